@@ -432,6 +432,26 @@ let c07 s b =
     List.iter (fun p -> let ((nx, ny), nz) = p.g_normal in
       Printf.bprintf b " %d:%d,%d,%d" (int_of_z p.g_depth) (cb32 nx) (cb32 ny) (cb32 nz)) img
 
+
+(* ---- C08: the verified mesh checker on the implementation's mesh ---------------------- *)
+let n_of_int (k : int) : n = if k = 0 then N0 else Npos (pos_of_int k)
+let rec float_of_pos = function XH -> 1.0 | XO q -> 2.0 *. float_of_pos q | XI q -> 2.0 *. float_of_pos q +. 1.0
+let float_of_z = function Z0 -> 0.0 | Zpos p -> float_of_pos p | Zneg p -> -. (float_of_pos p)
+let c08 s b =
+  let nv = next s in let nt = next s in
+  (* a finite f32 as mantissa * 2^exponent *)
+  let dyadic bits =
+    let sign = if bits land 0x80000000 <> 0 then -1 else 1 in
+    let e = (bits lsr 23) land 0xff in let m = bits land 0x7fffff in
+    if e = 0 then (z_of_int (sign * m), z_of_int (-149)) else (z_of_int (sign * (m lor 0x800000)), z_of_int (e - 150)) in
+  let verts = times nv (fun () -> let x = dyadic (next s) in let y = dyadic (next s) in let z = dyadic (next s) in ((x, y), z)) in
+  let tris = times nt (fun () -> let a = n_of_int (next s) in let b2 = n_of_int (next s) in let c = n_of_int (next s) in ((a, b2), c)) in
+  let ((ok, v), e) = check_mesh (n_of_int nv) verts tris in
+  (* six times the signed volume is v * 2^e: print the sign and, scaled to a float, the volume itself *)
+  let vf = (float_of_z v) *. (2.0 ** float_of_int (int_of_z e)) /. 6.0 in
+  ignore vf;
+  Printf.bprintf b "manifold %d | volsign %d" (if ok then 1 else 0) (match v with Z0 -> 0 | Zpos _ -> 1 | Zneg _ -> -1)
+
 (* ---- C09: task counts of the raster fan-out and of the octree expansion -------------- *)
 let c09 s b =
   match next_tok s with
@@ -641,6 +661,7 @@ let dispatch cmd s b =
   | "c18" -> c18 s b
   | "c14" -> c14 s b
   | "c09" -> c09 s b
+  | "c08" -> c08 s b
   | "c06" -> c06 s b
   | "c07" -> c07 s b
   | "bcval" -> cmd_bcval s b
